@@ -31,6 +31,7 @@ type ConfOpts struct {
 	FifoOnly     bool // leaf sort policy always fifo (needed by gang apps)
 	QuotaPreempt bool // set quota preemption delays and the partition flag
 	WideTrees    bool // 3-5 children per parent (sorting needs several candidates)
+	FewPrioProps bool // priority offsets and priority fences are rare (the crisp priority rule of preemption applies)
 }
 
 // MarshalConf renders a scheduler configuration as YAML with the repository's own YAML library.
@@ -287,11 +288,15 @@ func (g *confGen) genProps(path string, leaf bool) map[string]string {
 		case 1:
 			props[configs.PreemptionPolicy] = "disabled"
 		}
-		switch d("p-priopol", 8) {
+		prioN, offN := 8, 3
+		if g.o.FewPrioProps {
+			prioN, offN = 40, 1
+		}
+		switch d("p-priopol", prioN) {
 		case 0:
 			props[configs.PriorityPolicy] = "fence"
 		}
-		if d("p-offset", 10) < 3 {
+		if d("p-offset", 10) < offN && (!g.o.FewPrioProps || d("p-offset2", 4) == 0) {
 			props[configs.PriorityOffset] = fmt.Sprintf("%d", rapid.IntRange(-3, 3).Draw(g.t, "p-offv"+path))
 		}
 		if leaf {
